@@ -16,7 +16,8 @@ class C30(S.SchedCheck):
                  "translator: statement skeletons of Doist.do and Doist.ado extracted from the AST on every run, `decide`d equal modulo the await and the AsyncTimer/MonoTimer identification; "
                  "correspondence + oracle: the same program through doist.do() and through asyncio's run_until_complete(doist.ado()) on a SelectorEventLoop")
     level_text = ("ado_eq_do: for every time type, program (ops, faults, nesting), pool, tock, start, limit, fuel, and every behaviour of other asyncio tasks at the await, "
-                  "doistAdo returns exactly doistDo's Final (events, done, tyme, raised, doers, cycles); ado_leaves_world_to_env: the world is env applied once per completed cycle.  "
+                  "doistAdo returns exactly doistDo's Final (events, done, tyme, raised, doers, cycles); ado_leaves_world_to_env: the world is env applied once per completed cycle; "
+                  "ado_cancelled_is_stopped_do: an ado task cancelled at its (j+1)-th await leaves the trace/tyme/cycles of doistDo with fuel j+1 and done False (so every for-all-fuel theorem of C01/C02 applies).  "
                   "skeleton_ado_matches_do / skeleton_do_is_modelled / ado_timer_is_init_timer are `decide`d over Gen/DoSkeleton.lean, regenerated from src/hio/base/doing.py: "
                   "reordering the deeds-empty / limit checks, moving the await, or changing either loop's statements breaks the build.")
     level_note = "real-time mode (AsyncTimer pacing) is not modelled (C07 covers pacing for do()); KeyboardInterrupt delivered by the event loop itself (not raised by a doer) is not modelled"
@@ -28,32 +29,87 @@ class C30(S.SchedCheck):
                    "other asyncio tasks cannot reach scheduler state (they act on a disjoint world in the model; none are scheduled in the harness run)",
                    "asyncio.SelectorEventLoop, CPython 3.12"] + S.SchedCheck.assumptions
     rule = ("all profiles of the family (mixed ops faults time plain: extend/remove ops, raise/kbint/failing enter, nesting, limits incl. 0/negative/non-multiples) + timing profiles of C03 "
-            "+ family corpus; every case is run twice on the real code (do, ado).  non-trivial = as C01 or >= 10 recur events; distinct by request line")
+            "+ family corpus; every case is run twice on the real code (do, ado); a quarter of the cases additionally fix a cycle j at whose await a second asyncio task cancels the ado task.  non-trivial = as C01 or >= 10 recur events; distinct by request line")
 
     def extract(self):
         return XS.extract()
 
-    def corpus(self):
-        return list(S.CORPUS) + list(T.TIMING_CORPUS)
+    # a case is a run case ("run", ...), ("cancel", j, <run case>): the same program with the ado task cancelled at its (j+1)-th await,
+    # or ("seq", (start1, limit1), <run case>): the doer objects were run before under another Doist; the SECOND runs (do / ado) are observed
+    @staticmethod
+    def base(case):
+        return case[2] if case[0] in ("cancel", "seq") else case
 
     def generate(self, rng, n, tier):
         for _ in range(n):
             if rng.random() < 0.3:
-                yield T.gen_timed(rng, rng.choice(["flat", "nested", "hetero", "f46"]))
+                c = T.gen_timed(rng, rng.choice(["flat", "nested", "hetero", "f46"]))
             else:
-                yield S.gen_case(rng, rng.choice(self.profiles))
+                c = S.gen_case(rng, rng.choice(self.profiles))
+            k = rng.random()
+            if k < 0.25 and not S.unmodelled(c):
+                yield ("cancel", rng.choice([0, 0, 1, 1, 2, 3, 5, 8]), c)
+            elif k < 0.45 and T.op_free(c) and T.fault_free(c) and not S.unmodelled(c):
+                f = T.gen_first(rng, c)
+                if f[1] is None and S.has_always(list(c[5])):
+                    f = (f[0], 3 * float(c[1]))
+                yield ("seq", f, c)
+            else:
+                yield c
+
+    def corpus(self):
+        cs = list(S.CORPUS) + list(T.TIMING_CORPUS)
+        return cs + [("cancel", j, c) for j in (0, 2) for c in cs[:6] + list(T.TIMING_CORPUS)[:5] if not S.unmodelled(c)] \
+            + [("seq", (float(c[2]) + 5.0, 2.5 * float(c[1])), c) for c in T.TIMING_CORPUS]
 
     def request(self, case):
-        return T.request_head("doado", case)
+        if case[0] == "cancel":
+            return T.request_head("adocancel", case[2], ("cancel", case[1]))
+        return T.request_head("doado", self.base(case))
 
     def run_impl(self, case):
         T.settle_heap()
+        if case[0] == "cancel":
+            return T.CancelObs(S.run_program(case[2], "do"), T.run_cancelled(case[2], case[1]))
+        if case[0] == "seq":
+            return T.PairObs(T.run_second(case[2], case[1], "do"), T.run_second(case[2], case[1], "ado"))
         return T.PairObs(S.run_program(case, "do"), S.run_program(case, "ado"))
 
+    def shrink(self, case):
+        if case[0] == "cancel":
+            for j in range(case[1]):
+                yield ("cancel", j, case[2])
+            for c in super().shrink(case[2]):
+                yield ("cancel", case[1], c)
+        elif case[0] == "seq":
+            yield case[2]
+            for c in super().shrink(case[2]):
+                if T.op_free(c) and T.fault_free(c):
+                    yield ("seq", case[1], c)
+        else:
+            yield from super().shrink(case)
+
+    def mutate(self, rng, case):
+        if case[0] == "seq":
+            return [("seq", case[1], c) for c in super().mutate(rng, case[2]) if T.op_free(c) and T.fault_free(c) and not S.unmodelled(c)]
+        if case[0] == "cancel":
+            return [("cancel", case[1], c) for c in super().mutate(rng, case[2]) if not S.unmodelled(c)]
+        return super().mutate(rng, case)
+
     def nontrivial(self, case, obs):
-        return super().nontrivial(case, obs) or sum(1 for e in obs.a["trace"] if e[1] == "recur") >= 10
+        return super().nontrivial(self.base(case), obs) or sum(1 for e in obs.a["trace"] if e[1] == "recur") >= 10
+
+    def features(self, case, obs):
+        f = super().features(self.base(case), obs)
+        if case[0] == "cancel":
+            f.append("cancel:" + ("delivered" if obs.b["raised"] == "cancelled" else "run-ended-first"))
+        if case[0] == "seq":
+            f.append("second-run-of-the-same-doer-objects")
+        return f
 
     def oracle(self, case, obs):
+        if case[0] == "cancel":
+            return T.c30_cancel_clauses(case[2], case[1], obs.a, obs.b)
         return T.c30_clauses(obs.a, obs.b)
 
 
